@@ -256,6 +256,20 @@ def harness_path(feats, release=False):
 def build_harness(feats, release=False, extra_features=()):
     """cargo build of the harness against /repo's current working tree with the given features."""
     hdir = os.path.join(ROOT, "harness")
+    if REPO != "/repo":
+        # an alternative repository location (isolated background runs): same harness, path rewritten
+        alt = os.path.join(CACHE, "harness-alt")
+        os.makedirs(os.path.join(alt, "src"), exist_ok=True)
+        for fn in ("src/main.rs", "src/val.rs", "Cargo.lock"):
+            data = open(os.path.join(hdir, fn)).read()
+            dst = os.path.join(alt, fn)
+            if not os.path.exists(dst) or open(dst).read() != data:
+                open(dst, "w").write(data)
+        toml = open(os.path.join(hdir, "Cargo.toml")).read().replace('path = "/repo"', f'path = "{REPO}"')
+        dst = os.path.join(alt, "Cargo.toml")
+        if not os.path.exists(dst) or open(dst).read() != toml:
+            open(dst, "w").write(toml)
+        hdir = alt
     allf = list(feats) + list(extra_features)
     target = os.path.join(CACHE, "target-h-" + featkey(allf))
     with Lock("cargo-" + featkey(allf)):
